@@ -22,7 +22,8 @@
     theorems above are theorems about the expressions the code contains today; `gen_m_reassembled`,
     `gen_b_reassembled`, `gen_accuracy_reassembled`, `gen_exponents_signed`, `gen_byte_fields`,
     `gen_manufacturer_id` restate the split-field facts for the generated definitions;
-    `gen_layouts`, `gen_body_offsets`, `gen_flag_lists` pin the order / sizes of the pops and the flag names
+    `gen_layouts`, `gen_body_offsets`, `gen_flag_lists`, `gen_inputs` pin the order / sizes of the pops, the flag
+    names and which byte every expression reads
   * `*_counterexample`        the ORIGINAL pinned source (Variant.asShipped, a frozen variant kept as
     documentation; /repo has been repaired since) violates the property: accuracy above 63, rate unit,
     modifier unit, id-string type code, BCD+ and 6-bit id strings
@@ -443,6 +444,48 @@ theorem gen_flag_lists :
        (0x02, "default_event_generation"), (0x01, "default_scanning")] ∧
     Gen.SdrExpr.full_analog_characteristic_flags =
       [(0x01, "nominal_reading"), (0x02, "normal_max"), (0x04, "normal_min")] := ⟨rfl, rfl⟩
+
+/-- Which bytes every generated definition reads, as the source writes them: the type / length byte is
+`buffer[0]` / `data[offset]`, the four 6-bit characters come from `d[0]`, `d[0] d[1]`, `d[1] d[2]`, `d[2]`,
+every sub-field of the full sensor record from the local / attribute that received the pop named by
+`gen_layouts`.  (Binder names are invisible to the other `gen_*` theorems; this table is not.) -/
+theorem gen_inputs :
+    Gen.SdrExpr.inputs =
+      [("cc_value", ["value", "size"]),
+       ("convertComplement", ["value", "size"]),
+       ("key_owner_lun", ["pop(1)"]),
+       ("id_device_id_string_type", ["buffer[0]"]),
+       ("id_device_id_string_length", ["buffer[0]"]),
+       ("id_field_hi", ["buffer[0]"]),
+       ("full_analog_data_format", ["self.units_1 = pop(1)"]),
+       ("full_rate_unit", ["self.units_1 = pop(1)"]),
+       ("full_modifier_unit", ["self.units_1 = pop(1)"]),
+       ("full_percentage", ["self.units_1 = pop(1)"]),
+       ("full_linearization", ["pop(1)"]),
+       ("full_m_1", ["m = pop(1)", "m_tol = pop(1)"]),
+       ("full_m_2", ["m = pop(1)", "m_tol = pop(1)"]),
+       ("full_tolerance", ["m_tol = pop(1)"]),
+       ("full_b_1", ["b = pop(1)", "b_acc = pop(1)"]),
+       ("full_b_2", ["b = pop(1)", "b_acc = pop(1)"]),
+       ("full_accuracy", ["b_acc = pop(1)", "acc_accexp = pop(1)"]),
+       ("full_accuracy_exp", ["acc_accexp = pop(1)"]),
+       ("full_k2_1", ["rexp_bexp = pop(1)"]),
+       ("full_k2_2", ["rexp_bexp = pop(1)"]),
+       ("full_k1_1", ["rexp_bexp = pop(1)"]),
+       ("full_k1_2", ["rexp_bexp = pop(1)"]),
+       ("fru_device_access_address", ["pop(1)"]),
+       ("mc_device_slave_address", ["pop(1)"]),
+       ("mc_channel_number", ["pop(1)"]),
+       ("conf_device_slave_address", ["pop(1)"]),
+       ("conf_manufacturer_id", ["pop(3)"]),
+       ("tls_field_type", ["data[offset]"]),
+       ("tls_length", ["data[offset]"]),
+       ("tls_raw_lo", ["offset"]),
+       ("tls_raw_hi", ["offset", "data[offset]"]),
+       ("sixbit_char_0", ["d[0]"]),
+       ("sixbit_char_1", ["d[0]", "d[1]"]),
+       ("sixbit_char_2", ["d[1]", "d[2]"]),
+       ("sixbit_char_3", ["d[2]"])] := rfl
 
 /-! ### the pinned source (as shipped) violates the property -/
 
